@@ -40,6 +40,10 @@ def cells(tier):
         out.append(cell(f"s{size} A2|B1,cgroupB (withdrawn at once)|flush ret/exc", sc, MON))
         sc = scen(pool(size), [[A("A", 3, fault=[["T", 1]])], [M("M", 3, 2, bad=[["T", 0], 2])], [GAC]], outcomes=["ret", "exc"])
         out.append(cell(f"s{size} A3 typefault[1]|M3/2 typebad[0],bad[2] gac", sc, MON))
+        sc = scen(pool(size), [[A("A", 3, fault=[0])], [M("M", 2, 1)], [FLUSH]], outcomes=["ret", "exc"])
+        out.append(cell(f"s{size} A3 fault[0]|M2/1 flush", sc, MON))
+        sc = scen(pool(size, "SimpleTaskPool", args=1, kwargs=0, fault=[0]), [[S("S", 3)], [GAC]], outcomes=["ret"])
+        out.append(cell(f"simple s{size} S3 fault[0] gac", sc, ["C12", "C04", "C02"]))
         # raising call sites
         sc = scen(pool(size), [[A("A", 3, fault=[1])], [M("M", 3, 2, bad=[0, 2])], [GAC]], outcomes=["ret", "exc"])
         out.append(cell(f"s{size} A3 fault[1]|M3/2 bad[0,2] gac", sc, MON))
